@@ -229,6 +229,10 @@ class CallMixin:
             if g is not None:
                 raise PyRaise('AttributeError', f'property {name} has no setter')
             h.f[name] = val
+            if target.t in self.st.ghost.get(('escaped',), ()):
+                spec = (self.cur_contract or {}).get('ref_fields', {}).get(name)
+                if spec is not None:
+                    self.sync_ref_field(target, name, val, spec)
             self.note_store(target, name, val, node)
             return
         if target.k == 'cls':
@@ -334,7 +338,18 @@ class CallMixin:
         g.update(st.old_ghost)
         st.ghost = g
         try:
-            return self.ev(node)
+            r = self.ev(node)
+            # mutable containers are returned by value (their old contents), not by reference into the current heap
+            if r.k == 'list':
+                from .engine import HSeqList
+                h = st.heap[r.t]
+                if isinstance(h, HSeqList):
+                    r = SV('seq', h.seq, h.x)
+                else:
+                    items = list(h.items)
+                    st.heap = saved_heap
+                    r = SV('list', st.alloc(HList(items)))
+            return r
         finally:
             st.heap, self.frame.env, st.ghost = saved_heap, saved_env, saved_ghost
 
@@ -603,6 +618,8 @@ class CallMixin:
         self.st.notes.append(('call', key))
         old_heap, old_env, old_ghost = self.st.old_heap, getattr(self.st, 'old_env', {}), getattr(self.st, 'old_ghost', {})
         pre_heap = self.st.snapshot_heap()
+        for g, wexpr in c.get('call_witness', {}).items():
+            cenv[g] = self.ev_spec(wexpr, cenv)        # witness for a ghost parameter of the callee (existential in its requires)
         for i, (nm, r) in enumerate(self.clauses(c.get('requires', []))):
             self.oblige(f'pre@call[{key}]#{nm}', self.truth(self.ev_spec(r, cenv)), node, info=tag)
         extra = (self.cur_contract or {}).get('call_requires', {}).get(key, []) if self.frame.fn_key == self.cur_key else []
@@ -627,12 +644,14 @@ class CallMixin:
             ens = self.clauses(c.get('ensures', []))
             res = None
             defining = [r for nm, r in ens if r.strip().startswith('result == ') and 'result' not in r.strip()[10:]]
-            if defining and c.get('returns') in ('bytes', 'int', 'str', 'bool'):
+            if defining and (c.get('returns') in ('bytes', 'int', 'str', 'bool') or str(c.get('returns')).startswith('seq[')):
                 # a postcondition of the form  result == <expression over the arguments>  defines the result: use the term itself
                 try:
                     res = self.ev_spec(defining[0].strip()[10:], cenv)
                     if res.k == 'const':
                         res = SV(c['returns'], self.as_seq(res)) if c['returns'] in ('bytes', 'str') else res
+                    if res.k == 'list':
+                        res = SV('seq', self.list_as_seq(res), c['returns'][4:-1])
                 except Unsupported:
                     res = None
             if res is None:
@@ -735,6 +754,9 @@ class CallMixin:
                 n = int(cnt[1:])
                 return SV('list', self.st.alloc(HList([self.fresh_of(inner, f'{hint}_{i}') for i in range(n)])))
             raise Unsupported(f'symbolic-length list spec {spec} (use seq[...])')
+        if spec.startswith('seqlist['):
+            from .engine import HSeqList
+            return SV('list', self.st.alloc(HSeqList(self.sym(hint, SEQ), spec[8:-1])))
         if spec.startswith('seq['):
             inner = spec[4:-1]
             return SV('seq', self.sym(hint, SEQ), inner)
@@ -770,7 +792,7 @@ class CallMixin:
         model = spec if spec and 'fields' in spec else self.models.get(cls)
         if model is None:
             raise Unsupported(f'no object model for {cls}')
-        oid = self.st.alloc(HObj(cls))
+        oid = self.st.alloc(HObj(model.get('cls', cls)))
         o = SV('obj', oid)
         h = self.st.heap[oid]
         for fld, fs in model.get('fields', {}).items():
